@@ -101,7 +101,19 @@ def dotprops(ctx, navis, rng):
         d = dict(kind=kind, form=form, k=k, rows=rows)
         ctx.case(('dp', kind, form, k, str(rows)), nontrivial=kind not in ('generic',), sample=d if ci < 2 else None)
         ctx.count('cloud:' + kind); ctx.count('input:' + form)
-        st, dp = guarded(navis.make_dotprops, x, k=k)
+        # three routes to tangents and alpha: make_dotprops, the lazy .vect/.alpha of Dotprops(points, k), recalculate_tangents
+        route = str(rng.choice(['make', 'make', 'lazy', 'recalc'])) if kind != 'nan' and form == 'ndarray' and len(fin) >= k else 'make'
+        d['route'] = route
+        ctx.count('route:' + route)
+        if route == 'make':
+            st, dp = guarded(navis.make_dotprops, x, k=k)
+        elif route == 'lazy':
+            st, dp = guarded(lambda: navis.Dotprops(arr.copy(), k=k))
+            if st == 'ok':
+                st, _ = guarded(lambda: (dp.vect, dp.alpha))
+                dp = dp if st == 'ok' else _
+        else:
+            st, dp = guarded(lambda: navis.Dotprops(arr.copy(), k=None, vect=np.tile([1.0, 0, 0], (len(arr), 1))).recalculate_tangents(k, inplace=False))
         if st != 'ok':
             ctx.violation('make_dotprops raised on a valid cloud', d, dp)
             continue
@@ -387,7 +399,7 @@ def meshes(ctx, navis, rng):
             ctx.violation('surface of a voxel grid does not reach the extent of the filled voxels (misplaced by offset / spacing)', d,
                           dict(mesh_min=V.min(axis=0).tolist(), mesh_max=V.max(axis=0).tolist(), lo=lo.tolist(), hi=hi.tolist()))
     # ---- skeletons of meshes stay inside the mesh's bounding box; vertex_map is total
-    for ci in range(ctx.n(6, 40)):
+    for ci in range(ctx.n(9, 40)):
         which = ci % 3
         if which == 0:
             tm = trimesh.creation.cylinder(radius=float(rng.choice([1, 2, 3])), height=float(rng.integers(10, 40)), sections=int(rng.integers(6, 14)))
@@ -398,10 +410,19 @@ def meshes(ctx, navis, rng):
         tm = tm.subdivide()
         tm.apply_translation(rng.integers(-100, 100, size=3).astype(float))
         mn = navis.MeshNeuron(tm, units='1 nm')
+        unwelded = bool(rng.random() < 0.5)
+        if unwelded:
+            # a mesh with duplicated vertices (not processed on construction): a few faces get their own copies of their vertices
+            v_ = np.asarray(tm.vertices, dtype=float); f_ = np.asarray(tm.faces).copy(); extra = []
+            for fi in rng.choice(len(f_), size=min(4, len(f_)), replace=False):
+                for c_ in range(3):
+                    extra.append(v_[f_[fi, c_]]); f_[fi, c_] = len(v_) + len(extra) - 1
+            mn = navis.MeshNeuron((np.vstack([v_, np.array(extra)]), f_), process=False, units='1 nm')
         method = 'wavefront' if rng.random() < 0.6 else 'teasar'
-        d = dict(kind='skeletonize', shape=['cylinder', 'box', 'capsule'][which], method=method, bbox=tm.bounds.tolist(), n_vertices=len(tm.vertices))
+        d = dict(kind='skeletonize', shape=['cylinder', 'box', 'capsule'][which], method=method, bbox=tm.bounds.tolist(), n_vertices=len(mn.vertices), duplicated_vertices=unwelded)
         ctx.case(('sk', str(d)), nontrivial=True); ctx.count('skeletonize:' + method)
-        st, s = guarded(navis.skeletonize, mn, method=method, **({'inv_dist': 3} if method == 'teasar' else {}))
+        st, s = guarded(navis.skeletonize, mn, method=method, **({'inv_dist': 3} if method == 'teasar' else {})) if rng.random() < 0.6 else \
+            guarded(mn.skeletonize, method=method, **({'inv_dist': 3} if method == 'teasar' else {}))
         if st != 'ok':
             ctx.violation('skeletonize raised', d, s); continue
         co = s.nodes[['x', 'y', 'z']].values.astype(float)
